@@ -17,7 +17,14 @@ def run_twin(req):
     obs = []
     set_trickery_enabled(True if trick else False)
     try:
-        r1 = g1.run_program(prog, ["susp", "run", "pure"], extract_at=points, repeat=req.get("repeat", 1))
+        modes = ["susp", "run", "pure"]
+        inject = None
+        if trick and req.get("fail_trickery"):
+            # additionally make the trickery analysis fail (at up to 12 points of one suspension point) and look for
+            # anything of the target that stays referenced afterwards
+            modes.append("inject")
+            inject = [1, 12, req["fail_trickery"]]
+        r1 = g1.run_program(prog, modes, extract_at=points, repeat=req.get("repeat", 1), inject=inject)
         ev1 = r1["events"]
         st1 = r1["stats"]
     finally:
@@ -39,6 +46,8 @@ def run_twin(req):
              "points_nonempty": st1.get("susp.nonempty", 0) + st1.get("run.nonempty", 0),
              "retention_checks": st1.get("pure.retention_checks", 0),
              "collectable_checks": st1.get("pure.collectable_checks", 0),
+             "failed_trickery_retention_checks": st1.get("inject.retention_checks", 0),
+             "injected_trickery_failures": st1.get("inject.warned_and_fell_back", 0),
              "resumed_after_extraction": 1 if (st1.get("susp.checks", 0) and len(r1["trace"]) > 1) else 0}
     res = {"obs": obs[:6], "stats": stats}
     if obs:
